@@ -3,6 +3,37 @@
 //
 // The oracle is a reference sender fed from the harness's complete log of everything that was
 // written to the connection (refModel); it never predicts the eviction policy of the stack.
+//
+// Tests
+//
+//	TestSenderSequential  rapid state machine (t.Repeat) on spine.NewSender(capture) and on the sender
+//	                      of a connected peer (stack-originated datagrams and inbound responses included)
+//	TestSenderBounded     rapid: N in {50,200,800} distinct unanswered requests, re-issue all, <= 64 withheld
+//	TestNotifyWindow      plain: enumerated (notifies, one lookup, notifies) scenarios; regression cases of F17
+//	TestSenderConcurrent  rapid: 8-16 goroutines (plus the connection's reader on a peer) from a start barrier
+//
+// Oracle (sequential): every written datagram carries a counter larger than all earlier ones; a call
+// of the Request family that wrote nothing must return the counter of a request with the same
+// destination and the same command that is unanswered in the complete log ("withheld only while an
+// identical request is unanswered" - whatever was evicted); a call that wrote must have written
+// exactly its own request and returned that datagram's counter (writing is always allowed);
+// re-issuing all unanswered requests withholds at most 64 of them; each of the last 100 datagrams with
+// classifier notify is returned by DatagramForMsgCounter byte for byte, also at the moment it is
+// being written. Concurrent: all counters of the connection pairwise distinct; datagrams = successful
+// calls (each returned counter is on the wire exactly once and carries what the call sent; withheld
+// requests return the counter of an identical request); counters of calls that do not overlap increase.
+//
+// Non-trivial (sequential): a call was withheld, or a request was written although an identical one
+// was unanswered (an eviction of the request memory, seen from outside), or more than 100
+// notifications were sent (an eviction of the notify cache), or a successful lookup happened between
+// two notifications. Distinct by (sender kind, the full history: every step with its parameters,
+// outcome and counter). Concurrent rounds: non-trivial if calls of different goroutines overlapped in
+// time (start / end stamps); distinct by the drawn workloads.
+//
+// Failure signatures: C13/counter/{missing,duplicate,not-increasing}/..., C13/request/...,
+// C13/dedup/withheld/<how the returned counter relates to the request>, C13/dedup/unbounded-memory,
+// C13/notify-cache/{evicted-after-lookup,recent-not-found,not-retrievable-at-write-time,wrong-datagram},
+// C13/concurrent/....
 package c13
 
 import (
@@ -79,7 +110,9 @@ func measurementData(id, val int) *model.MeasurementListDataType {
 	}}}
 }
 
-func dataCmd(id, val int) model.CmdType { return model.CmdType{MeasurementListData: measurementData(id, val)} }
+func dataCmd(id, val int) model.CmdType {
+	return model.CmdType{MeasurementListData: measurementData(id, val)}
+}
 
 // nmCall builds the NodeManagement call the sender is expected to issue for kind.
 func nmCall(kind string, client, server *model.FeatureAddressType) model.CmdType {
@@ -448,7 +481,9 @@ func newMachine(t world.TB, kind string) *machine {
 	return s
 }
 
-func (s *machine) log(format string, args ...any) { s.trace = append(s.trace, fmt.Sprintf(format, args...)) }
+func (s *machine) log(format string, args ...any) {
+	s.trace = append(s.trace, fmt.Sprintf(format, args...))
+}
 
 func (s *machine) hist() string {
 	tr := s.trace
@@ -504,7 +539,9 @@ func (s *machine) request(t *rapid.T) {
 func (s *machine) doRequest(t world.TB, cl model.CmdClassifierType, l, d, ci int, ack bool) string {
 	cmds := []model.CmdType{readCmd(ci)}
 	return s.issue(t, fmt.Sprintf("%s(d%d,c%d)", cl, d, ci), "Sender.Request", s.c.dests[d], cmds,
-		func() (*model.MsgCounterType, error) { return s.c.sender.Request(cl, s.c.locals[l], s.c.dests[d], ack, cmds) })
+		func() (*model.MsgCounterType, error) {
+			return s.c.sender.Request(cl, s.c.locals[l], s.c.dests[d], ack, cmds)
+		})
 }
 
 func (s *machine) nmcall(t *rapid.T) {
@@ -691,7 +728,33 @@ func (s *machine) doNotify(t world.TB, via string, l int, id, val int, probe boo
 	}
 }
 
+// f17Open: the lookup-promotes-entry defect of the notify cache is listed as an open finding.
+func f17Open() bool { return world.KnownFinding("C13/notify-cache/evicted-after-lookup") != nil }
+
+// room limits the number of notifications about to be sent. Once a lookup has hit an entry that was
+// not the newest, pushing the total beyond 100 notifications can only end in the open finding F17;
+// while that finding is listed as open such continuations are down-weighted to one in four (not
+// excluded), so that long histories keep exploring the other clauses.
+func (s *machine) room(t *rapid.T, n int) int {
+	if !f17Open() || !s.m.promoted || len(s.m.notifies)+n <= notifyWindow {
+		return n
+	}
+	if rapid.IntRange(0, 3).Draw(t, "intoKnownFinding") == 0 {
+		world.Label("known-shape/entered")
+		return n
+	}
+	world.Label("known-shape/avoided")
+	if r := notifyWindow - len(s.m.notifies); r > 0 {
+		return r
+	}
+	return 0
+}
+
 func (s *machine) notify(t *rapid.T) {
+	if s.room(t, 1) == 0 {
+		s.log("notify-avoided")
+		return
+	}
 	via := "sender"
 	if s.c.kind == "peer" && rapid.IntRange(0, 2).Draw(t, "viaFeature") == 0 {
 		via = "feature"
@@ -842,7 +905,9 @@ func (s *machine) burst(t *rapid.T) {
 		d := rapid.IntRange(0, nDests-1).Draw(t, "dest")
 		s.burstDistinct(t, d, n)
 	case "notifies":
-		s.burstNotifies(t, n)
+		if n = s.room(t, n); n > 0 {
+			s.burstNotifies(t, n)
+		}
 	default:
 		d := rapid.IntRange(0, nDests-1).Draw(t, "dest")
 		ci := rapid.IntRange(0, nBaseCmds-1).Draw(t, "cmd")
